@@ -46,11 +46,11 @@ fn q_hash_count_lookups() {
         _ => { let _ = c.remove(&CK(k)); }
     }
     let departed = (len0 - c.len()) as u32;
-    assert!(count() <= 2 + departed, "a lookup/promotion/removal hashed more than twice");
-    assert!(count() <= 1 || which >= 6, "a lookup or promotion hashed more than once");
+    // the property's bound: two key hashes plus one per entry that leaves during the operation
+    assert!(count() <= 2 + departed, "a lookup / promotion / removal hashed more than two keys plus one per departing entry");
 }
 
-// ends and traversals, clear, drain: no hashing at all
+// traversals, clear, drain and the LRU/MRU peeks hash nothing (stated by the property)
 #[kani::proof]
 #[kani::unwind(6)]
 fn q_hash_count_zero() {
@@ -61,11 +61,18 @@ fn q_hash_count_zero() {
         1 => { let mut it = c.iter(); let _ = it.next(); let _ = it.next_back(); let _ = it.next(); }
         2 => { let mut it = c.keys(); let _ = it.next(); let mut v = c.values(); let _ = v.next_back(); }
         3 => { c.clear(); }
-        4 => { let mut d = c.drain(); let _ = d.next(); }
-        5 => { let _ = c.len(); let _ = c.is_empty(); let _ = c.capacity(); let _ = c.current_size(); let _ = c.max_size(); }
-        _ => { let _ = c.get_lru().is_some(); }
+        _ => { let mut d = c.drain(); let _ = d.next(); }
     }
-    assert!(count() == 0, "an operation that needs no hash computed one");
+    assert!(count() == 0, "a traversal, clear, drain or LRU/MRU peek computed a hash");
+}
+// everything else that neither rebuilds nor evicts: at most two key hashes
+#[kani::proof]
+#[kani::unwind(6)]
+fn q_hash_count_scalars() {
+    let mut c = prebuilt_ck(2, 4, usize::MAX / 2);
+    if kani::any() { let _ = c.len(); let _ = c.is_empty(); let _ = c.capacity(); let _ = c.current_size(); let _ = c.max_size(); }
+    else { let _ = c.get_lru().is_some(); }
+    assert!(count() <= 2);
 }
 
 // remove_lru / remove_mru / eviction step: one hash per departing entry
@@ -75,7 +82,20 @@ fn q_hash_count_remove_ends() {
     let mut c = prebuilt_ck(2, 4, usize::MAX / 2);
     if kani::any() { let _ = c.remove_lru(); } else { let _ = c.remove_mru(); }
     assert!(c.len() == 1);
-    assert!(count() <= 1, "removing one end entry hashed more than once");
+    assert!(count() <= 2 + 1, "removing one end entry hashed more than two keys plus one for the departing entry");
+}
+
+// eviction of several entries by one operation: one hash per departing entry (plus at most two)
+#[kani::proof]
+#[kani::unwind(6)]
+fn q_hash_count_evict_many() {
+    let mut c = prebuilt_ck(3, 4, usize::MAX / 2);
+    let keep: usize = kani::any();
+    kani::assume(keep <= 3);
+    c.set_max_size(keep * EC);
+    let departed = (3 - c.len()) as u32;
+    assert!(c.len() == keep);
+    assert!(count() <= 2 + departed, "an operation evicting several entries hashed more than two keys plus one per departing entry");
 }
 
 // table rebuilds: each held entry hashed once
@@ -86,7 +106,7 @@ fn q_hash_count_rebuild() {
     kani::assume(n <= 3);
     let mut c = prebuilt_ck(n, 4, usize::MAX / 2);
     if kani::any() { let _ = c.try_reallocate(4); } else { let d = c.clone(); std::mem::forget(d); }
-    assert!(count() <= n as u32, "a table rebuild hashed an entry more than once");
+    assert!(count() <= 2 + n as u32, "a table rebuild hashed more than two keys plus each held entry once");
 }
 
 // retain: one hash per removed entry, none for kept ones
@@ -97,7 +117,7 @@ fn q_hash_count_retain() {
     let keep: [bool; 3] = kani::any();
     c.retain(|k, _| keep[k.0 as usize]);
     let removed = (3 - c.len()) as u32;
-    assert!(count() <= removed, "retain hashed more than once per removed entry");
+    assert!(count() <= 2 + removed, "retain hashed more than two keys plus one per removed entry");
 }
 
 // composites (thorough; may end undecided by timeout): insert / try_insert / mutate / set_max_size
